@@ -81,6 +81,11 @@ fn main() {
             let scripts = read_ndjson(&args.str("in", ""));
             sg::gm_replay(&scripts, &mut log);
         }
+        "mxi-replay" => {
+            let mut log = Log::to_path(&out);
+            let scripts = read_ndjson(&args.str("in", ""));
+            sg::mxi_replay(&scripts, &mut log);
+        }
         "mx-grow" => {
             let mut log = Log::to_path(&out);
             let calls = read_ndjson(&args.str("in", ""));
